@@ -659,9 +659,9 @@ def g3_compare(xa, xb):
 
 def check_g3(ctx, corr):
     gama = build_gama_retry(ctx, sanitize=False, targets=("gama-local", "gama-g3"))
-    # the two sjtsk05 inputs (1.5 / 3.8 MB, thousands of unknowns) take minutes per dense algorithm: thorough tier
-    # runs the smaller one only; quick tier the six small archives
-    limit = 2_000_000 if ctx.thorough else 100_000
+    # the two sjtsk05 inputs (1.5 / 3.8 MB, thousands of unknowns) take minutes per dense algorithm (> 4 min measured):
+    # only the six small archives are run
+    limit = 100_000
     inputs = sorted(f for f in (ctx.repo / "tests/gama-g3/input").rglob("*.xml")
                     if not f.name.endswith("-adj.xml") and f.stat().st_size < limit)
     with tempfile.TemporaryDirectory(prefix="c02g3-") as work:
